@@ -75,9 +75,10 @@ TEncFlag    == Silent /\ EncFlag /\ UNCHANGED <<pend, rem, fl>>
 (* the decision taken with the loaded size shows in the next DATA message *)
 NextData == TraceLog[l + Ev.nd]
 HasNextData == Ev.nd >= 0 /\ l + Ev.nd <= Len(TraceLog) /\ TraceLog[l + Ev.nd].e = "data"
+TSndRecv == Silent /\ SndRecv /\ UNCHANGED <<pend, rem, fl>>
 TSndTake ==
-    /\ Silent /\ HasNextData /\ st = "file" /\ snd.pc = "loop" /\ sendq # <<>>
-    /\ LET c == Head(sendq) IN
+    /\ Silent /\ HasNextData /\ st = "file" /\ snd.pc = "taken"
+    /\ LET c == snd.left IN
          IF c <= size THEN NextData.whole /\ NextData.n = c
                       ELSE ~NextData.whole /\ NextData.n = Min2(size, c)
     /\ SndTake /\ UNCHANGED <<pend, rem, fl>>
@@ -145,13 +146,14 @@ TEnd == /\ IsEvent("end")
         /\ Ev.cok /\ Ev.sok /\ Ev.same      \* a clean transfer succeeds on both sides
         /\ Finish /\ UNCHANGED <<pend, rem, fl>>
 
+(* The order of the disjuncts is the order in which TLC (depth-first queue) tries them: consume  *)
+(* a recorded event when one fits, otherwise let the ack goroutine, the sender, the encoder act. *)
+(* (Measured: 16 states per recorded event; with the silent steps first it was 140.)            *)
 TNext ==
-    \/ TReset \/ TFile
-    \/ TEncFull \/ TEndOfData \/ TEncDeliver \/ TEncWait \/ TEncRenew \/ TEncTail \/ TEncFlag
-    \/ TSndTake \/ TSndLoadPiece \/ TSndAckPush \/ TData
-    \/ TAckTake \/ TAckDo \/ TAck \/ TPauseSeen \/ TPause \/ TResume
-    \/ TP1Data \/ TP1Ack \/ TP1Empty
-    \/ TEof \/ TEnd
+    \/ TReset \/ TFile \/ TData \/ TAck \/ TPause \/ TResume \/ TP1Data \/ TP1Ack \/ TEof \/ TEnd
+    \/ TAckTake \/ TPauseSeen \/ TAckDo
+    \/ TSndRecv \/ TSndTake \/ TSndLoadPiece \/ TSndAckPush
+    \/ TEncFull \/ TEndOfData \/ TEncDeliver \/ TEncWait \/ TEncRenew \/ TEncTail \/ TEncFlag \/ TP1Empty
 
 TSpec == TInit /\ [][TNext]_tvars
 
